@@ -62,6 +62,7 @@ class Console:
         self.zone: dict[int, dict] = {}
         self.timer: dict[int, dict] = {}
         self.errtext: dict[int, str | None] = {}
+        self.foreign: dict[str, dict[int, dict]] = {"ac": {}, "zone": {}}
         self.reset_state()
         self.rx: list[dict] = []  # every client frame: {seq,t,link,frame,reading}
         self.rx_bad: list[dict] = []
@@ -195,19 +196,27 @@ class Console:
                 body += wire5.enc_ability_record(a)
         return self.w.f_ext(pid, self.w.X_ABILITY, body)
 
+    def _rec(self, what: str, i: int) -> dict:
+        """State of entity i; `foreign` holds records of entities the installation does not contain
+        (a console may report them: the client has to skip exactly those records)."""
+        own = self.ac if what == "ac" else self.zone
+        if i in own:
+            return own[i]
+        return self.foreign[what][i]
+
     def f_ac_status(self, pid: int, acs=None) -> bytes:
         ids = sorted(self.ac) if acs is None else list(acs)
         if self.gen == 4:
-            return wire4.f_status(pid, wire4.T_AC_STATUS, b"".join(wire4.enc_ac_status_record(self.ac[i]) for i in ids))
+            return wire4.f_status(pid, wire4.T_AC_STATUS, b"".join(wire4.enc_ac_status_record(self._rec("ac", i)) for i in ids))
         stride = self.inst.get("ac_stride", 10)
-        return wire5.f_cs(pid, wire5.S_AC_STATUS, [wire5.enc_ac_status_record(self.ac[i], stride) for i in ids], rlen=stride)
+        return wire5.f_cs(pid, wire5.S_AC_STATUS, [wire5.enc_ac_status_record(self._rec("ac", i), stride) for i in ids], rlen=stride)
 
     def f_zone_status(self, pid: int, zones=None) -> bytes:
         ids = sorted(self.zone) if zones is None else list(zones)
         if self.gen == 4:
-            return wire4.f_status(pid, wire4.T_GROUP_STATUS, b"".join(wire4.enc_group_status_record(self.zone[i]) for i in ids))
+            return wire4.f_status(pid, wire4.T_GROUP_STATUS, b"".join(wire4.enc_group_status_record(self._rec("zone", i)) for i in ids))
         stride = self.inst.get("zone_stride", 8)
-        return wire5.f_cs(pid, wire5.S_ZONE_STATUS, [wire5.enc_zone_status_record(self.zone[i], stride) for i in ids], rlen=stride)
+        return wire5.f_cs(pid, wire5.S_ZONE_STATUS, [wire5.enc_zone_status_record(self._rec("zone", i), stride) for i in ids], rlen=stride)
 
     def f_timer_status(self, pid: int, acs=None) -> bytes:
         if self.gen == 4:
